@@ -181,6 +181,9 @@ Proof.
     f_equal. apply IH; assumption.
 Qed.
 
+(* no floating-point field *)
+Definition noflt (L : list param) : Prop := forall j, (j < length L)%nat -> pty (nth j L pparam0) <> TFlt.
+
 Section TwoOperands.
   Variable L : list param.
   Hypothesis Hwf : wf_plist L = true.
@@ -231,43 +234,66 @@ Section TwoOperands.
   Hypothesis He1 : elem_at L m1 a1 t1.
   Hypothesis He2 : elem_at L m2 a2 t2.
 
-  Theorem elem_equal_content :
-    elem_equal L m1 (ref_fl L t1 a1) m2 (ref_fl L t2 a2) = true <-> t1 = t2.
+  (* field-wise content equivalence: each field's objects are equal under the value type's own
+     == (identity of the object representations, except floating point) *)
+  Definition tuple_eqv : Prop :=
+    forall j, (j < length L)%nat -> span_eq (pty (nth j L pparam0)) (nth j t1 []) (nth j t2 []) = true.
+
+  Lemma eqm_not_flt p : eqm p = true -> pty p <> TFlt.
+  Proof. unfold eqm. destruct (pty p); congruence. Qed.
+
+  Theorem elem_equal_content_eqv :
+    elem_equal L m1 (ref_fl L t1 a1) m2 (ref_fl L t2 a2) = true <-> tuple_eqv.
   Proof.
     destruct (runs_eq_structure L) as [Hcov [Hs1 Hs2]].
     pose proof (runs_tight eqm true true L) as Htight. fold (runs_eq L) in Htight.
     split.
     - intros H. unfold elem_equal in H. rewrite forallb_forall in H.
-      assert (Hall : forall j, (j < length L)%nat -> nth j t1 [] = nth j t2 []).
-      { intros j Hj. destruct (Hcov j Hj) as [Hm | (k & e & Hke & Hk)].
-        - specialize (H j ltac:(apply in_seq; lia)). unfold equal_one in H. rewrite Hm in H.
-          rewrite (fld_objs_spec L Hwf m1 a1 t1 fc1 Ht1 He1 j Hj) in H.
-          rewrite (fld_objs_spec L Hwf m2 a2 t2 fc2 Ht2 He2 j Hj) in H.
-          apply span_eq_eq. exact H.
-        - destruct (Hs1 _ _ Hk) as [Hb _]. destruct (Htight _ _ Hk) as [Tpad Tplain].
-          specialize (H k ltac:(apply in_seq; lia)). unfold equal_one in H. rewrite Hk in H.
-          rewrite (run_bytes_spec L Hwf m1 a1 t1 fc1 Ht1 He1 k e ltac:(lia)) in H
-            by (intros i Hi; apply Tpad; [exact Hi|reflexivity]).
-          rewrite (run_bytes_spec L Hwf m2 a2 t2 fc2 Ht2 He2 k e ltac:(lia)) in H
-            by (intros i Hi; apply Tpad; [exact Hi|reflexivity]).
-          apply list_eqb_eq in H.
-          apply (run_fields_eq (e - k) k); [lia| |exact H|lia].
-          intros i Hi. apply Tplain; [lia|reflexivity]. }
-      apply (nth_ext _ _ [] []).
-      + rewrite (tuple_ok_length L fc1 0 t1 Ht1), (tuple_ok_length L fc2 0 t2 Ht2). reflexivity.
-      + intros j Hj. apply Hall. rewrite <- (tuple_ok_length L fc1 0 t1 Ht1). exact Hj.
+      intros j Hj. destruct (Hcov j Hj) as [Hm | (k & e & Hke & Hk)].
+      + specialize (H j ltac:(apply in_seq; lia)). unfold equal_one in H. rewrite Hm in H.
+        rewrite (fld_objs_spec L Hwf m1 a1 t1 fc1 Ht1 He1 j Hj) in H.
+        rewrite (fld_objs_spec L Hwf m2 a2 t2 fc2 Ht2 He2 j Hj) in H.
+        exact H.
+      + destruct (Hs1 _ _ Hk) as [Hb _]. destruct (Htight _ _ Hk) as [Tpad Tplain].
+        specialize (H k ltac:(apply in_seq; lia)). unfold equal_one in H. rewrite Hk in H.
+        rewrite (run_bytes_spec L Hwf m1 a1 t1 fc1 Ht1 He1 k e ltac:(lia)) in H
+          by (intros i Hi; apply Tpad; [exact Hi|reflexivity]).
+        rewrite (run_bytes_spec L Hwf m2 a2 t2 fc2 Ht2 He2 k e ltac:(lia)) in H
+          by (intros i Hi; apply Tpad; [exact Hi|reflexivity]).
+        apply list_eqb_eq in H.
+        rewrite (run_fields_eq (e - k) k ltac:(lia) ltac:(intros i Hi; apply Tplain; [lia|reflexivity]) H j ltac:(lia)).
+        apply span_eq_refl.
     - intros E. unfold elem_equal. apply forallb_forall. intros k Hk. apply in_seq in Hk.
       unfold equal_one. destruct (nth k (runs_eq L) RSkip) as [| |e] eqn:Ek; [reflexivity| |].
       + rewrite (fld_objs_spec L Hwf m1 a1 t1 fc1 Ht1 He1 k ltac:(lia)).
         rewrite (fld_objs_spec L Hwf m2 a2 t2 fc2 Ht2 He2 k ltac:(lia)).
-        rewrite E. apply span_eq_refl.
-      + destruct (Hs1 _ _ Ek) as [Hb _]. destruct (Htight _ _ Ek) as [Tpad _].
+        apply E. lia.
+      + destruct (Hs1 _ _ Ek) as [Hb Hpred]. destruct (Htight _ _ Ek) as [Tpad _].
         rewrite (run_bytes_spec L Hwf m1 a1 t1 fc1 Ht1 He1 k e ltac:(lia))
           by (intros i Hi; apply Tpad; [exact Hi|reflexivity]).
         rewrite (run_bytes_spec L Hwf m2 a2 t2 fc2 Ht2 He2 k e ltac:(lia))
           by (intros i Hi; apply Tpad; [exact Hi|reflexivity]).
-        rewrite E. apply list_eqb_refl.
+        apply list_eqb_eq. f_equal. apply map_ext_in. intros i Hi. apply in_seq in Hi.
+        unfold fb. f_equal.
+        apply (span_eq_eq (pty (nth i L pparam0))); [apply eqm_not_flt; apply Hpred; lia|apply E; lia].
   Qed.
+
+  (* without floating-point fields equivalence is identity *)
+  Hypothesis Hnf : noflt L.
+
+  Lemma tuple_eqv_eq : tuple_eqv <-> t1 = t2.
+  Proof.
+    split.
+    - intros E. apply (nth_ext _ _ [] []).
+      + rewrite (tuple_ok_length L fc1 0 t1 Ht1), (tuple_ok_length L fc2 0 t2 Ht2). reflexivity.
+      + intros j Hj. rewrite (tuple_ok_length L fc1 0 t1 Ht1) in Hj.
+        apply (span_eq_eq (pty (nth j L pparam0)) (Hnf j Hj)). apply E. exact Hj.
+    - intros E j Hj. rewrite E. apply span_eq_refl.
+  Qed.
+
+  Theorem elem_equal_content :
+    elem_equal L m1 (ref_fl L t1 a1) m2 (ref_fl L t2 a2) = true <-> t1 = t2.
+  Proof. rewrite elem_equal_content_eqv. exact tuple_eqv_eq. Qed.
 End TwoOperands.
 
 (* ---------- lifted to vectors: references into vectors that represent lists of tuples ---------- *)
@@ -282,6 +308,9 @@ Qed.
 Section VectorLevel.
   Variable L : list param.
   Hypothesis Hwf : wf_plist L = true.
+  (* lists without floating-point fields: equality of content is identity of the tuples (with
+     them it is the field-wise equivalence of elem_equal_content_eqv) *)
+  Hypothesis Hnf : noflt L.
 
   Let HF : Forall wfp L := wf_plist_Forall L Hwf.
 
@@ -385,6 +414,35 @@ Section LessContent.
 End LessContent.
 
 (* a == b implies neither a < b nor b < a, wherever and in whatever memory the operands live *)
+Lemma span_eq_not_lt t : forall a b, span_eq t a b = true -> span_lt t a b = false.
+Proof.
+  induction a as [|x a IH]; intros [|y b]; cbn [span_eq span_lt]; try congruence.
+  intros H. apply andb_true_iff in H. destruct H as [Ho Hs].
+  destruct (obj_lt t x y) eqn:E1; [apply obj_lt_not_eq in E1; congruence|].
+  destruct (obj_lt t y x) eqn:E2; [apply obj_lt_not_eq in E2; rewrite obj_eq_sym in E2; congruence|].
+  apply IH. exact Hs.
+Qed.
+
+Lemma lxm_not_flt p : lxm p = true -> pty p <> TFlt.
+Proof. unfold lxm. destruct (pty p); congruence. Qed.
+
+Lemma eqv_tuples_not_less L : L <> [] -> forall t1 t2,
+  (forall j, (j < length L)%nat -> span_eq (pty (nth j L pparam0)) (nth j t1 []) (nth j t2 []) = true) ->
+  tuple_less L t1 t2 = false.
+Proof.
+  intros HL t1 t2 E. apply not_true_iff_false. intros H. unfold tuple_less in H. rewrite forallb_forall in H.
+  specialize (H O (in_seq0_len L HL)). unfold tuple_less_one in H.
+  pose proof (runs_first_not_skip lxm true false L HL) as Hns. fold (runs_lex L) in Hns. unfold not_skip in Hns.
+  assert (H0 : (0 < length L)%nat) by (destruct L; [congruence|cbn [length]; lia]).
+  destruct (nth 0 (runs_lex L) RSkip) as [| |e] eqn:Ek; [congruence| |].
+  - rewrite (span_eq_not_lt _ _ _ (E O H0)) in H. discriminate.
+  - destruct (runs_lex_structure L) as [_ [Hs1 _]]. destruct (Hs1 _ _ Ek) as [Hb Hpred].
+    assert (Hsame : map (fb t1) (seq 0 (S (e - 0))) = map (fb t2) (seq 0 (S (e - 0)))).
+    { apply map_ext_in. intros i Hi. apply in_seq in Hi. unfold fb. f_equal.
+      apply (span_eq_eq (pty (nth i L pparam0))); [apply lxm_not_flt; apply Hpred; lia|apply E; lia]. }
+    rewrite Hsame, lex_lt_irrefl in H. discriminate.
+Qed.
+
 Theorem equal_elements_are_not_less L : wf_plist L = true ->
   forall t1 t2 fc1 fc2 m1 m2 a1 a2,
   tuple_ok L fc1 0 t1 -> tuple_ok L fc2 0 t2 -> elem_at L m1 a1 t1 -> elem_at L m2 a2 t2 ->
@@ -393,10 +451,11 @@ Theorem equal_elements_are_not_less L : wf_plist L = true ->
   elem_less L m2 (ref_fl L t2 a2) m1 (ref_fl L t1 a1) = false.
 Proof.
   intros Hwf t1 t2 fc1 fc2 m1 m2 a1 a2 Ht1 Ht2 He1 He2 Heq.
-  apply (elem_equal_content L Hwf t1 t2 fc1 fc2 Ht1 Ht2 m1 m2 a1 a2 He1 He2) in Heq. subst t2.
+  apply (elem_equal_content_eqv L Hwf t1 t2 fc1 fc2 Ht1 Ht2 m1 m2 a1 a2 He1 He2) in Heq.
   assert (HL : L <> []) by (apply wf_plist_nonempty; exact Hwf).
-  rewrite (elem_less_content L Hwf t1 t1 fc1 fc2 m1 m2 a1 a2 Ht1 Ht2 He1 He2).
-  rewrite (elem_less_content L Hwf t1 t1 fc2 fc1 m2 m1 a2 a1 Ht2 Ht1 He2 He1).
-  rewrite <- (elem_less_content L Hwf t1 t1 fc1 fc1 m1 m1 a1 a1 Ht1 Ht1 He1 He1).
-  split; apply elem_less_irrefl; exact HL.
+  rewrite (elem_less_content L Hwf t1 t2 fc1 fc2 m1 m2 a1 a2 Ht1 Ht2 He1 He2).
+  rewrite (elem_less_content L Hwf t2 t1 fc2 fc1 m2 m1 a2 a1 Ht2 Ht1 He2 He1).
+  split; apply eqv_tuples_not_less; try exact HL.
+  - exact Heq.
+  - intros j Hj. rewrite span_eq_sym. apply Heq. exact Hj.
 Qed.
